@@ -40,7 +40,8 @@ GenNext ==
   /\ Len(h) < Depth
   /\ IF sphase = "closed" THEN GNop
      ELSE IF sphase = "new" THEN \E who \in W(<<"raw", "raw", "client", "client">>) :
-                                   IF who = "client" THEN GClient ELSE IF kind = "ws" THEN GUpgrade ELSE GRsHs
+                                   IF who = "client" /\ (kind = "ws" \/ cfgLimit = 0 \/ cfgLimit >= 4096) THEN GClient
+                                   ELSE IF kind = "ws" THEN GUpgrade ELSE GRsHs
      ELSE IF sphase = "up" THEN GHello
      ELSE \E k \in W(<<"pub", "sget", "sget", "big">>) : IF k = "big" /\ kind = "rs" /\ recvLimit < 100000 THEN GRsBig ELSE IF k = "sget" THEN GSGet ELSE GPub
 
